@@ -111,7 +111,26 @@ func genOpts(rng *rand.Rand, tier string, mode string) sim.Opts {
 	if mode == "converge" || rng.Intn(3) == 0 {
 		o.Converge = 10
 	}
+	if rng.Intn(3) == 0 {
+		o.SnapHeavy = o.Compaction
+	}
+	if rng.Intn(3) == 0 {
+		o.IsolateLeader = o.Partitions
+	}
 	switch mode {
+	case "snap": // lagging followers, frequent compaction, snapshots racing appends, late duplicates
+		o.Compaction, o.SnapHeavy, o.Partitions, o.IsolateLeader = true, true, true, rng.Intn(2) == 0
+		o.DupPct = []int{5, 15, 30}[rng.Intn(3)]
+		o.ConfChanges = rng.Intn(4) == 0
+	case "figure8": // leaders cut off with unreplicated tails, elections, overwrites
+		o.Partitions, o.IsolateLeader, o.Compaction = true, true, rng.Intn(2) == 0
+		o.SnapHeavy = o.Compaction
+		o.ConfChanges, o.Crashes = false, false
+		o.ElectionTick = 3
+		o.Voters, o.Learners = []uint64{1, 2, 3}, nil
+		if rng.Intn(2) == 0 {
+			o.Voters = []uint64{1, 2, 3, 4, 5}
+		}
 	case "asynccrash": // crash/restart races of candidates and fresh leaders with asynchronous storage writes
 		o.Voters, o.Learners = []uint64{1, 2, 3}, nil
 		o.Async, o.Crashes, o.CrashHeavy = true, true, true
@@ -254,7 +273,7 @@ func main() {
 	noModel := flag.Bool("nomodel", false, "skip the model comparison")
 	trace := flag.Bool("trace", false, "print the environment trace of a replay")
 	child := flag.Bool("child", false, "internal: run as worker, print one JSON line per run")
-	mode := flag.String("mode", "mixed", "mixed|converge|asynccrash|single|zero")
+	mode := flag.String("mode", "mixed", "mixed|converge|asynccrash|single|zero|snap|figure8")
 	corpus := flag.String("corpus", "", "directory of replay files to run first (minimised past findings)")
 	flag.Parse()
 
